@@ -174,3 +174,10 @@ Fixpoint store_indices (i : nat) (ts : list text) (nd : text) : list (nat * (nat
   | [] => []
   | t :: ts' => map (fun r => (i, r)) (match_indices nd t) ++ store_indices (S i) ts' nd
   end.
+
+(* str::join *)
+Fixpoint join (d : text) (l : list text) : text :=
+  match l with
+  | [] => []
+  | x :: l' => match l' with [] => x | _ :: _ => x ++ d ++ join d l' end
+  end.
